@@ -336,6 +336,8 @@ def rule_W1(ctx):
                 hyps = [Lin({fill: 1}), Lin({nlkey: 1})]   # fill >= 0, nl >= 0 (see below)
                 subst = {}
                 for it in items:
+                    if it[0] == "blk":
+                        continue
                     if it[0] == "ev":
                         if it[1] == c["id"]:
                             break
